@@ -476,7 +476,7 @@ func init() {
 	register(&Property{
 		ID: "C03",
 		Scenarios: func(tier string) []*core.Scenario {
-			return append(append(c03Scenarios(tier), c03Sections()), c03SizeSweeps(tier)...)
+			return append(append(c03Scenarios(tier), c03Sections(), c03AlignbOrigins()), c03SizeSweeps(tier)...)
 		},
 		Pre: func(r *core.Run, tier string) {
 			x86refSelfCheck(r, tier)
